@@ -10,11 +10,19 @@ from vlib import boot  # noqa: E402
 boot.bp()
 from vlib import bpsec_util as bu  # noqa: E402
 
-out = {}
+path = os.path.join(VERIF, 'fixtures', 'pki.json')
+# (entries that exist are kept as they are: the fixtures are fixed)
+out = json.load(open(path)) if os.path.exists(path) and '--all' not in sys.argv else {}
+have = set(out)
 for curve in ('p256', 'p384'):
     for which in (0, 1):
-        out['%s-%d' % (curve, which)] = bu.generate_pki('dtn://srcnode/', curve, which)
+        if '%s-%d' % (curve, which) not in have:
+            out['%s-%d' % (curve, which)] = bu.generate_pki('dtn://srcnode/', curve, which)
 # key set 2: the end-entity key has a public coordinate with a leading zero octet
-out['p256-2'] = bu.generate_pki('dtn://srcnode/', 'p256', 2, short_coordinate=True)
-json.dump(out, open(os.path.join(VERIF, 'fixtures', 'pki.json'), 'w'), indent=1, sort_keys=True)
+if 'p256-2' not in have:
+    out['p256-2'] = bu.generate_pki('dtn://srcnode/', 'p256', 2, short_coordinate=True)
+# key set 3: the end-entity certificates carry no subject key identifier
+if 'p256-3' not in have:
+    out['p256-3'] = bu.generate_pki('dtn://srcnode/', 'p256', 3, no_ski=True)
+json.dump(out, open(path, 'w'), indent=1, sort_keys=True)
 print('written')
